@@ -312,6 +312,21 @@ func c20One(c *fw.Ctx, id string, i int, pool []string, exe string) {
 		}
 		spec.Edit = append(spec.Edit, scenario == "edited" && r.Intn(3) > 0 || scenario == "fault")
 	}
+	// a generated-code style file: a //line directive naming another file precedes the package
+	// clause (goyacc, cgo). The file must still be saved to the path it was loaded from, and the
+	// file the directive names is a bystander.
+	if scenario != "parsedir-unedited" && i%3 == 0 {
+		dir := filepath.Dir(spec.Files[0])
+		fn := filepath.Join(dir, "zz_generated.go")
+		src := []byte("//line expr.y:2\npackage " + "gen" + "\n\nimport \"fmt\"\n\n//line expr.y:10\nvar _ = fmt.Sprint\n")
+		os.WriteFile(fn, src, 0644)
+		os.WriteFile(filepath.Join(dir, "expr.y"), []byte("%{ grammar source: do not touch %}\n"), 0644)
+		orig[fn] = src
+		spec.Files = append(spec.Files, fn)
+		spec.Edit = append(spec.Edit, false)
+		spec.Names["fmt"] = "fmt"
+		c.Count("packages_with_line_directive_file", 1)
+	}
 	if scenario == "parsedir-unedited" {
 		spec.Mode = "parsedir"
 		spec.Dir = filepath.Dir(spec.Files[0])
